@@ -34,12 +34,12 @@ SPEC = {
 
 MANIFEST = {
     "technique": "Lean 4 refinement proof (state machine = history-level IEC spec, sorted duplicate-free permutation) + differential correspondence against the real scheduler",
-    "level_text": "Theorems c06_task_refines / c06_executed_iff / c06_exec_sorted / c06_no_replay / c06_background_after hold for "
+    "level_text": "Theorems c06_config_refines / c06_task_refines / c06_executed_iff / c06_exec_sorted / c06_no_replay / c06_background_after hold for "
                   "every task set, every timeline and every cycle index (induction over the history, no bound). The model is a "
                   "function-by-function transcription of collect_ready_tasks, the sort key and execute_background_programs, and each "
                   "run executes it and the real runtime (built from CONFIGURATION source through the real compiler) on the same "
                   "generated configurations and timelines and compares executed task order, program order, overrun events and counters.",
     "level_note": "Trusted: Lean kernel + propext/Quot.sound/Classical.choice; the hand-written model (validated only by the "
                   "differential run, whose generator bounds what it sees); Rust sort_by_key modelled by List.mergeSort (unique result "
-                  "because the key is injective). Clock values assumed non-negative i64. FB-instance tasks are not yet generated.",
+                  "because the key is injective). Clock values assumed non-negative i64. FB-instance tasks (`fb WITH T`) are generated; tasks registered directly through Runtime::register_task (same program in two tasks) are not.",
 }
